@@ -457,7 +457,10 @@ def _container_instances(tier):
     out = [dict(members=[S_BILIN], own=[[3, 2]], delta=False),
            dict(members=[S_21, S_BILIN], own=[[3, 2], [2, 4]], delta=False),
            dict(members=[S_BILIN, S_12R, S_21], own=[[2, 2], [3, 3], [4, 2]], delta=False),
-           dict(members=[S_21, S_12R], own=[[2, 2], [2, 2]], delta=True)]
+           dict(members=[S_21, S_12R], own=[[2, 2], [2, 2]], delta=True),
+           # the tessellator is chosen through the container: every member must still be meshed on its own surface
+           dict(members=[S_21, S_BILIN], own=[[3, 2], [2, 4]], delta=False, via_container='tri'),
+           dict(members=[S_BILIN, S_12R, S_21], own=[[2, 3], [3, 3], [4, 2]], delta=False, via_container='tri')]
     if tier == 'thorough':
         out += [dict(members=[S_22, S_11K, S_32R], own=[[3, 4], [4, 3], [2, 5]], delta=False),
                 dict(members=[S_BILIN, S_22, S_21], own=[[2, 2], [2, 2], [2, 2]], delta=True)]
@@ -467,7 +470,7 @@ def _container_instances(tier):
 @scenario('C15', fns=['multi.SurfaceContainer.tessellate', 'multi.SurfaceContainer.vertices', 'multi.SurfaceContainer.faces',
                       'multi.process_tessellate', 'multi.AbstractContainer.add', 'abstract.Surface.tessellate'],
           quick=lambda: _container_instances('quick'), thorough=lambda: _container_instances('thorough'))
-def container_mesh(ctx, members, own, delta):
+def container_mesh(ctx, members, own, delta, via_container=None):
     """requires: a fresh container of 1..3 valid surfaces; delta=False: every surface keeps its own sample sizes `own`
                  (tessellate(delta=False)); delta=True: the container's evaluation delta (1/3 x 1/2) is pushed to the surfaces
        ensures : .vertices / .faces of the container: ids 0..V-1 over the union in list order, every face references
@@ -477,6 +480,8 @@ def container_mesh(ctx, members, own, delta):
     for o, ss in zip(objs, own):
         o.sample_size_u, o.sample_size_v = ss
     cont = _container(ctx, objs)
+    if via_container:
+        cont.tessellator = ctx.geomdl('tessellate').TriangularTessellate()
     if delta:
         cont.delta = [ctx.lit(Fraction(1, 3)), ctx.lit(Fraction(1, 2))]
         _call(ctx, 'container.tessellate', cont.tessellate)
